@@ -372,6 +372,25 @@ def check_merged_table_holds_bindings_only(ctx, rule: str) -> None:
     rep.add(rule, f"{f.qname}:merged-table-holds-bindings-only", bad is None, f"{f.module.rel}:{(bad[0] if bad else f.node).lineno}", f"{len(stores)} merge site(s): every value comes out of a bound table" if bad is None else f"'{src(bad[1]) if bad[1] is not None else '?'}' puts something other than a bound value into the merged bound table: get_default_for answers 'bound, else signature default', so an inner signature default is classified BOUND, is not deep-copied and reaches the nested run by reference — a function that mutates its default carries the mutation into every later run")
 
 
+def check_default_always_copied(ctx, rule: str) -> None:
+    """In the input resolver, a value classified as a signature DEFAULT passes through the deep-copy helper on every path
+    to the return — whatever the node kind and whatever name the parameter currently carries."""
+    db, rep = ctx.db, ctx.rep
+    ri = db.func("runners._shared.helpers._resolve_input")
+    cfg = ctx.cfg(ri)
+    copies = [n for n in cfg.nodes if any("_safe_deepcopy" in call_names(db, c, ri) for c in cfg.calls_at(n))]
+    val: dict[str, bool] = {}
+    for t in [n for n in cfg.nodes if n.kind == "test" and "ValueSource." in src(n.ast)]:
+        for c in ast.walk(t.ast):
+            if isinstance(c, ast.Compare) and len(c.ops) == 1 and isinstance(c.ops[0], (ast.Eq, ast.Is, ast.NotEq, ast.IsNot)):
+                mem = next((e.attr for e in (c.left, c.comparators[0]) if isinstance(e, ast.Attribute) and isinstance(e.value, ast.Name) and e.value.id == "ValueSource"), None)
+                if mem is not None:
+                    r = mem == "DEFAULT"
+                    val[src(c)] = r if isinstance(c.ops[0], (ast.Eq, ast.Is)) else not r
+    ok = bool(copies) and bool(val) and all_paths_pass(cfg.entry, cfg.exit_return, copies, specialize(val, cfg))
+    rep.add(rule, f"{ri.qname}:default-always-copied", ok, ri.loc(), "a DEFAULT-classified value always passes through the deep-copy helper" if ok else "a signature default can reach the node function without being deep-copied on some path (e.g. a guard that looks the parameter up under its current, renamed name in a table keyed by the function's own parameter names): the default object is shared by a node and all its clones, so running a derived node changes what its receiver and siblings compute")
+
+
 def check_default_copy_is_deep(ctx, rule: str) -> None:
     """The helper that gives each execution its own copy of a signature default returns copy.deepcopy(value) on every
     path — no type is handed through uncopied (a tuple or namedtuple default can hold a list)."""
